@@ -10,9 +10,9 @@ import random
 
 from vdrive import searchlib
 from vdrive.core import fp
-from vmon import base, m_diff, m_ruledb, m_search
+from vmon import base, clock as vclock, m_diff, m_ruledb, m_search, rng as vrng
 from vref import words as rw
-from vuniv import gen, intuniv, words
+from vuniv import gen, intuniv, table, words
 
 PROPERTY = "C14"
 LEVEL = "exploration"
@@ -22,7 +22,10 @@ RULE = (
     "insertion has_specification, key sets, is_verified for all labels, contains() for stored / "
     "permuted / non-stored keys and the strategy look-up of the new key are compared; at the end every "
     "key's strategy is looked up in both. non-trivial = >= 12 insertions incl. a two-way key and a "
-    "verified class another strategy could expand or a factory; distinct = case fingerprints"
+    "verified class another strategy could expand or a factory; case kind table = an integer universe "
+    "as strategies (rule graphs the word universe cannot produce: one-way single-child rules, and a "
+    "one-way and a two-way single-child rule between the same two classes in either arrival order) "
+    "searched under the default database with the same mirroring; distinct = case fingerprints"
 )
 LEVEL_TEXT = (
     "exploration: differential (lock-step) monitor of two implementations fed the same recorded "
@@ -34,13 +37,15 @@ ASSUMPTIONS = ["strategies are deterministic (recomputation must find the same r
 FLOORS = {
     "quick": {"nontrivial": 120, "counters": {"diff.insertions_compared": 7000, "diff.contains_checked": 200000,
                                                "diff.strategy_lookups_checked": 25000,
-                                               "diff.is_verified_compared": 80000}},
+                                               "diff.is_verified_compared": 80000,
+                                               "c14.tables_with_one_and_two_way_rule_on_one_pair": 80}},
     "thorough": {"nontrivial": 2000, "counters": {"diff.insertions_compared": 120000,
                                                    "diff.contains_checked": 3000000,
                                                    "diff.strategy_lookups_checked": 400000}},
 }
 CASE_TIMEOUT = {"quick": 90, "thorough": 180}
 SIZES = {"quick": 1000, "thorough": 16000}
+TABLES = {"quick": 400, "thorough": 6000}
 
 
 def shard_setup(tier):
@@ -71,11 +76,62 @@ def gen_cases(tier, seed):
         case["schedule"] = {"mode": rng.choice(("drain", "sliced")), "costs": [rng.choice((0.001, 4.5))],
                             "rng_seed": rng.randrange(10 ** 6), "tree_k": 0, "perc": 1, "smallest": False}
         case["id"] = produced
+        case["kind"] = "words"
         produced += 1
         yield case
+    for k in range(TABLES[tier]):
+        rng = intuniv.rng_for(seed, "C14/table", k)
+        tb = table.add_twin_unary_rows(rng, table.random_table(rng))
+        yield {"id": f"t{k}", "kind": "table", "table": tb, "root": rng.randrange(tb["n"]),
+               "sets": rng.choice((1, 2)), "rng_seed": rng.randrange(10 ** 6)}
+
+
+def run_table(case):
+    """Integer universe as strategies under the default database, every insertion mirrored;
+    tables carry one-way and two-way single-child rows between the same two labels."""
+    from comb_spec_searcher import CombinatorialSpecificationSearcher
+    from comb_spec_searcher.rule_db import RuleDB
+
+    cx = base.ctx()
+    m_ruledb.reset()
+    m_diff.reset()
+    m_search.reset()
+    cx._diff_rng = random.Random(f"c14/{case['id']}")
+    m_diff.CONFIG["truth_empty"] = _truth_empty
+    m_diff.CONFIG["enabled"] = True
+    try:
+        vrng.set_rng(vrng.ScriptedRNG(case["rng_seed"]))
+        vclock.install(vclock.VirtualClock(), vclock.BudgetClock(2))
+        tb = case["table"]
+        pack = table.build_pack(tb, sets=case["sets"])
+        s = CombinatorialSpecificationSearcher(table.Lab(case["root"]), pack, ruledb=RuleDB())
+        for _ in range(400):
+            try:
+                wp = next(s.classqueue)
+            except StopIteration:
+                break
+            s._expand(s.classdb.get_class(wp.label), wp.label, wp.strategies, wp.inferral)
+        pair = m_diff.pair_of(s.ruledb)
+        if pair is None:
+            return {"skip": "no insertion"}
+        for key in sorted(set(s.ruledb)):
+            m_diff.check_strategy(pair, key, {"final": True})
+        sh = m_ruledb.shadow_of(s.ruledb)
+        ways = {}
+        for e in sh.events:
+            if len(e["key_ends"]) == 1:
+                ways.setdefault(frozenset((e["start"], e["key_ends"][0])), set()).add(bool(e["two_way"]))
+        both = any(len(v) == 2 for v in ways.values())
+        if both:
+            cx.count("c14.tables_with_one_and_two_way_rule_on_one_pair")
+        return {"nontrivial": pair.n >= 6 and both, "fingerprint": fp(case)}
+    finally:
+        m_diff.CONFIG["enabled"] = False
 
 
 def run_case(case):
+    if case.get("kind") == "table":
+        return run_table(case)
     cx = base.ctx()
     m_ruledb.reset()
     m_diff.reset()
